@@ -62,8 +62,14 @@ def scratch_base():
     return _SCRATCH_BASE
 
 
+_RECENT = []
+
+
 def new_scratch(tag="r"):
-    return tempfile.mkdtemp(prefix=tag + "-", dir=scratch_base())
+    d = tempfile.mkdtemp(prefix=tag + "-", dir=scratch_base())
+    _RECENT.append(d)
+    del _RECENT[:-16]
+    return d
 
 
 def cleanup_scratch():
@@ -128,7 +134,10 @@ def lifetime(fn, timeout=None):
     _, st = os.waitpid(pid, 0)
     code = os.waitstatus_to_exitcode(st)
     events = []
-    for line in b"".join(chunks).decode().splitlines():
+    raw = b"".join(chunks)
+    for d in reversed(_RECENT):      # scratch paths are random: keep them out of event logs and digests
+        raw = raw.replace(d.encode(), b"<root>")
+    for line in raw.decode().splitlines():
         try:
             events.append(json.loads(line))
         except ValueError:
